@@ -47,3 +47,64 @@ def build_tl_harness(ctx):
     with open(ov, "w") as f:
         json.dump({"Replace": {C.V + "/harness/root/cmd/tl/scanned.go": gpath}}, f)
     return C.build_harness("root", pkg="./cmd/tl", extra=["-overlay", ov]), len(items)
+
+
+def prepare(ctx):
+    """Build harness from the tree, translate the registry (-> coq/gen/Registry.v), generate
+    cases with the implementation's results, run the extracted model on them.
+    Returns dict(reg=..., cases=path, model={id: result}, stats=..., names={tid: name})."""
+    from . import tlreg
+    hb, nscanned = build_tl_harness(ctx)
+    reg = ctx.work + "/registry.txt"
+    rc, out = C.sh([hb, "registry", reg], env=ctx.env(), timeout=300)
+    if rc != 0:
+        raise C.BuildError("registry translator failed: " + out[-2000:])
+    structs, enums, regl, ifaces = tlreg.write_registry_v(reg)
+    cases = ctx.work + "/cases.txt"
+    rc, out = C.sh("%s cases %s %s 2>%s/cases.err" % (hb, ctx.tier, cases, ctx.work), env=ctx.env(), timeout=3000)
+    if rc != 0:
+        raise C.BuildError("case generation failed: " + out[-2000:] + open(ctx.work + "/cases.err").read()[-2000:])
+    stats = {}
+    for l in out.splitlines():
+        f = l.split("\t")
+        if len(f) == 3 and f[0] == "stat":
+            stats[f[1]] = int(f[2])
+    return {"hb": hb, "reg": reg, "cases": cases, "stats": stats, "structs": structs, "enums": enums,
+            "regl": regl, "nscanned": nscanned, "names": {s["tid"]: s["name"] for s in structs}}
+
+
+def run_model(ctx, prep):
+    C.build_model("TL")
+    mout = ctx.work + "/model.txt"
+    C.run_model("TL", prep["cases"], mout, args=[prep["reg"]], timeout=3000)
+    model = {}
+    with open(mout) as f:
+        for line in f:
+            i, r = line.rstrip("\n").split("\t", 1)
+            model[i] = r
+    return model
+
+
+def iter_cases(path):
+    with open(path) as f:
+        for line in f:
+            yield line.rstrip("\n").split("\t")
+
+
+def norm_class(x):
+    """implementation result -> comparable form: panic text and kind of fatal error dropped"""
+    if x.startswith("panic") or x.startswith("fatal"):
+        return "panic"
+    return x
+
+
+def short(s, n=160):
+    return s if len(s) <= n else s[:n] + "...(%d chars)" % len(s)
+
+
+TRUSTED_TL = [
+    "registry translator harness/root/tlh/registry.go (reflection over tl.VerifRegistry() + the source scan for CRC() methods) and lib/props/tlreg.py (text -> coq/gen/Registry.v)",
+    "value abstraction harness/root/tlh/abs.go (Go value -> model value text) and the OCaml parsers of coq/extract/TL/driver.ml",
+    "compress/gzip enters the decoder model as the Section variable `inflate`; for execution it is an oracle table recorded per run from the real library",
+    "modelled, not verified: internal/encoding/tl encoder.go, decoder.go, cursor_w.go, cursor_r.go, tag.go, common_types.go (Int128/Int256), objects/types.go container and gzip decoders, as Gallina functions in coq/theories/TL/{Types,Codec}.v",
+]
